@@ -347,7 +347,25 @@ func sgGenFor(prop string) func(seed uint64, idx, total int, tier string) any {
 			}
 		case "C04":
 			n := r.Range(3, 10)
-			if r.Bool(0.25) {
+			if r.Bool(0.15) {
+				// the first data channel of a peer that always negotiates data channels, on a session
+				// that was negotiated without an application section (an answer cannot add one; the
+				// setting was switched on after the exchange)
+				p := r.Intn(2)
+				c.Peers[1-p].AlwaysDC = false
+				if r.Bool(0.5) {
+					c.Peers[p].AlwaysDC = true
+					ops = append(ops, sgOp{Kind: "addtrack", Peer: 1 - p, A: r.Intn(2)})
+					ops = sgExchange(ops, 1-p)
+				} else {
+					c.Peers[p].AlwaysDC = false
+					ops = append(ops, sgOp{Kind: "addtrack", Peer: p, A: r.Intn(2)})
+					ops = sgExchange(ops, p)
+					ops = append(ops, sgOp{Kind: "setconfig", Peer: p, A: c39AlwaysDC | c39SameIdentity | c39SameBundle | c39SameCerts | c39SamePool})
+				}
+				ops = append(ops, sgOp{Kind: "createdc", Peer: p})
+				n = len(ops) + r.Range(0, 3)
+			} else if r.Bool(0.25) {
 				// a sender comes back on a transceiver that has been negotiated without one
 				p, k := r.Intn(2), r.Intn(2)
 				if r.Bool(0.5) {
@@ -480,6 +498,15 @@ func sgGenFor(prop string) func(seed uint64, idx, total int, tier string) any {
 					ops = append(ops, sgOp{Kind: "createdc", Peer: p}, sgOp{Kind: "addtrack", Peer: p, A: r.Intn(2)}, sgOp{Kind: "offer", Peer: p}, sgOp{Kind: "setlocal", Peer: p, A: -1},
 						sgOp{Kind: "foreign-answer", Peer: p, A: vfPick(r, []int{4, 9, 3, r.Intn(20)})}, sgOp{Kind: "addtransceiver", Peer: p, A: r.Intn(2), B: r.Intn(4)}, sgOp{Kind: "offer", Peer: p})
 				}
+			}
+			if prop == "C12" && r.Bool(0.3) {
+				// a simulcast sender (two or three encodings), offered at once or after an exchange
+				p := r.Intn(2)
+				ops = append(ops, sgOp{Kind: "addsimulcast", Peer: p, A: r.Intn(2), B: r.Intn(2)})
+				if r.Bool(0.4) {
+					ops = sgExchange(ops, p)
+				}
+				ops = append(ops, sgOp{Kind: "offer", Peer: p})
 			}
 			if prop == "C12" && r.Bool(0.3) {
 				p := r.Intn(2)
